@@ -166,7 +166,7 @@ def run_generator(argv_tail, env=None, real_seed=None, tag="gen",
             _np.random.seed(real_seed)
     res = {"files": None, "exc": None, "dir_exists": None}
     try:
-        with lprun._Quiet() as q:
+        with lprun._Quiet() as q, lprun.Watchdog():
             try:
                 Generator(["-o", d] + list(argv_tail))
             finally:
